@@ -182,3 +182,65 @@ fn vx_roundtrip_control<'d, 's, 'e, 't, W: Warn<Warning>>(
         }
     }
 }
+
+// ---- composition for chunk packets (C05 / C06): written by ConnectedPacket::write_impl, read back with the matching token hint.
+//      For the UNCOMPRESSED output form everything is checked against the two contracts: same ack, token, resend flag, chunk count,
+//      payload bytes, and no warning (except the documented ChunksNoChunks for an empty packet without resend request).
+//      When the writer chose Huffman compression the contracts say nothing about the bytes (that path rests on the C07 contract).
+fn vx_roundtrip_chunks<'d, 's, 'e, 't, W: Warn<Warning>>(
+    warn: &mut W,
+    p: &ConnectedPacket<'d>,
+    buffer: BufferRef<'d, 's>,
+    scratch: BufferRef<'e, 't>,
+) where 'd: 'e
+    requires
+        buffer.wf(), buffer.init().len() == 0, buffer.cap() >= 1400,
+        scratch.wf(), scratch.init().len() == 0, scratch.cap() >= 1400,
+        p.ack < 1024,
+        p.type_ is Chunks,
+        // what the connection layer sends: payload + token fit a datagram
+        p.type_->Chunks_2@.len() + (if p.token.is_some() { 4int } else { 0int }) <= 1397,
+{
+    let ghost w0 = warn.count();
+    let w = p.write_impl(buffer);
+    assert(w.is_ok());
+    let bytes = w.unwrap();
+    proof {
+        assert(PACKETFLAG_CONTROL == 1u8 && PACKETFLAG_CONNLESS == 2u8 && PACKETFLAG_REQUEST_RESEND == 4u8 && PACKETFLAG_COMPRESSION == 8u8) by (compute_only);
+    }
+    let compressed = bytes[0] & 0b1000_0000 != 0;   // PACKETFLAG_COMPRESSION in the packed header
+    proof {
+        let b = bytes@[0];
+        assert((b & 0b1000_0000 != 0) == (((b & 0b1111_0000) >> 4) & 8u8 != 0)) by (bit_vector);
+        assert(ph_flags(b) == (b & 0b1111_0000) >> 4);
+    }
+    if !compressed {
+        let hint = Some(p.token.is_some());
+        let r = Packet::read_impl(warn, bytes, hint, Some(scratch));
+        assert(r.is_ok());
+        match r.unwrap() {
+            Packet::Connless(_) => { assert(false); }
+            Packet::Connected(q) => {
+                assert(q.ack == p.ack);
+                assert(q.token.is_some() == p.token.is_some());
+                proof {
+                    let n = bytes@.len() as int;
+                    let pl = p.type_->Chunks_2@;
+                    if p.token.is_some() {
+                        assert(bytes@.subrange(n - 4, n) =~= bytes@.subrange(3 + pl.len() as int, n));
+                        assert(q.token.unwrap().0@ =~= p.token.unwrap().0@);
+                    }
+                }
+                match q.type_ {
+                    ConnectedPacketType::Control(_) => { assert(false); }
+                    ConnectedPacketType::Chunks(rr, num, payload) => {
+                        assert(rr == p.type_->Chunks_0);
+                        assert(num == p.type_->Chunks_1);
+                        assert(payload@ =~= p.type_->Chunks_2@);
+                        assert(num != 0 || rr ==> warn.count() == w0);
+                    }
+                }
+            }
+        }
+    }
+}
